@@ -4,13 +4,14 @@
 # (`pqverif -sweep`), reverts. Any reported rule instance is a false alarm of the checker.
 cd /verif
 . /verif/env.sh >/dev/null 2>&1
-[ -n "$(git -C /repo status --porcelain)" ] && { echo "/repo not clean"; exit 2; }
+R=${VERIF_REPO:-/repo}   # a scratch worktree may stand in for /repo so that shards can run side by side
+[ -n "$(git -C $R status --porcelain)" ] && { echo "$R not clean"; exit 2; }
 for d in "$@"; do
 for pf in $d/*.patch; do
   id=$(basename $d)/$(basename $pf .patch)
-  git -C /repo apply $(realpath $pf) 2>/dev/null || { echo "$id: patch does not apply"; continue; }
-  out=$(./bin/pqverif -sweep -known /verif/known_findings.json 2>&1)
-  git -C /repo checkout -q -- . ; git -C /repo clean -fdq
+  git -C $R apply $(realpath $pf) 2>/dev/null || { echo "$id: patch does not apply"; continue; }
+  out=$(./bin/pqverif -sweep -repo $R -known /verif/known_findings.json 2>&1)
+  git -C $R checkout -q -- . ; git -C $R clean -fdq
   HIT=$(echo "$out" | grep "^SWEEP\|^LOAD-FAILED" | cut -c1-400 | tr '\n' ' ')
   echo "$id: ${HIT:- silent}"
 done
